@@ -833,7 +833,7 @@ def generic_cols(it, cols):
     return [it._generic_elem(x) for x in cols.items]
 
 
-def check_slices(ctx, construct, it, panel, time_axis, facts, loc, fitted_len=None):
+def check_slices(ctx, construct, it, panel, time_axis, facts, loc, fitted_len=None, collected=None):
     """Every slice of ``panel`` along the time axis made while iterating the fitted intervals is start:end."""
     for ev_ in it.events:
         for l in ev_.loops:
@@ -918,6 +918,13 @@ def check_slices(ctx, construct, it, panel, time_axis, facts, loc, fitted_len=No
                       "of every interval is dropped" % (lo, hi, what, wlo, whi), loc,
                       witness={"slice": [repr(lo), repr(hi)], "fitted": [repr(wlo), repr(whi)]})
         return
+    if collected is not None:
+        sl_val = e.value
+        accs = [x for x in walk_with_stores(collected, it.events) if isinstance(x, AccList)
+                and any(v is sl_val or v == sl_val for v, _, _, _ in x.appends)]
+        ctx.check(bool(accs) and all(not a.other for a in accs), "R1", construct + ":collected",
+                  "every interval slice is appended to the list the output frame is built from",
+                  "the interval slices are not collected into the returned frame (no append of the slice reaches the return value)", loc)
     ctx.check(lo == wlo and hi == whi, "R1", construct,
               "slice [%r : %r) covers exactly the fitted interval (%s)" % (lo, hi, what),
               "slice [%r : %r) but the fitted interval (%s) covers [%r : %r)%s"
@@ -994,7 +1001,7 @@ def r1_intervals(ctx, repo):
         if not rets:
             ctx.undecided("R1", tag + ":slice", "transform has no normal return", loct)
             continue
-        check_slices(ctx, tag + ":slice", it, X2, 1, rets[0][0].facts, loct, fitted_len=m)
+        check_slices(ctx, tag + ":slice", it, X2, 1, rets[0][0].facts, loct, fitted_len=m, collected=rets[0][1])
         ctx.count("scenarios")
     # RandomIntervalFeatureExtractor: fit delegates to a RandomIntervalSegmenter, transform slices the 3-d array
     fe = repo.cls(EXTRACT + ":RandomIntervalFeatureExtractor")
@@ -1096,6 +1103,45 @@ def r1_feature_columns(ctx, repo):
     if len(iloops) != 1 or not stores or not floops or any(floops[0] not in x.loops or x.spec[1] != stores[0].spec[1] for x in stores):
         ctx.undecided("R1", c, "the store of one feature column per (feature, interval) pair was not found", loc)
         return
+    # the column is stored on the normal path (not only in the exception fallback)
+    ctx.check(any(not getattr(x, "handler", False) for x in stores), "R1", tag + ":column-store",
+              "each (feature, interval) column is stored on the normal path",
+              "the feature column is stored only inside the exception handler: on the normal path nothing is written", loc)
+    inner_node = iloops[0].node
+    if isinstance(inner_node, ast.For) and any(isinstance(x, ast.Try) and x.handlers for x in ast.walk(inner_node)):
+        ctx.check(any(getattr(x, "handler", False) for x in stores), "R1", tag + ":fallback-store",
+                  "the fallback for features without an axis argument stores the same column",
+                  "the exception fallback inside the interval loop swallows the error without storing the feature column: the column "
+                  "silently stays zero for features that take no axis argument", loc)
+    # the features aggregate over the time axis of the interval
+    n, m = sym("n(X)"), sym("m(X)")
+    X3 = Src("X", "np3", [n, ONE, m])
+    for cv in it.calls:
+        if iloops[0] not in cv.loops:
+            continue
+        vals = list(cv.args) + list(cv.kwargs.values())
+        if not any(isinstance(a, Sub) and a.base == X3 for a in vals):
+            continue
+        if cv.name == "numpy.apply_along_axis":
+            b = bound(cv, ["func1d", "axis", "arr"])
+            ax = b.get("axis")
+        elif cv.name == "__call__":
+            ax = cv.kwargs.get("axis")
+        else:
+            continue
+        ctx.check(None if not isinstance(ax, Lin) else ax in (Lin.c(-1), Lin.c(2)), "R1", tag + ":feature-axis",
+                  "features are computed along the time axis of the interval (axis=-1 / 2 of (instances, columns, time))",
+                  "%s(...) aggregates the interval along axis=%r, not along time: one value per time point / column instead of one per "
+                  "instance" % (cv.name, ax), loc)
+    # width of the output: one column per (feature, interval) pair
+    xb = stores[0].base
+    if isinstance(xb, Buf) and len(xb.shape) == 2:
+        nf, ni = Lin.sym("len(%r)" % (floops[0].it,)), Lin.sym("len(%r)" % (iloops[0].it,))
+        want_w = it.binop(ast.Mult(), nf, ni, State())
+        ctx.check(xb.shape == [n, want_w], "R1", tag + ":output-shape", "the output has n_instances rows and n_features * n_intervals columns",
+                  "the output array has shape %r, expected (n_instances, n_features * n_intervals) = %r" % (xb.shape, [n, want_w]), loc)
+    else:
+        ctx.undecided("R1", tag + ":output-shape", "the output array is not a fresh 2-d buffer: %r" % (xb,), loc)
     sel = stores[0].spec[1]
     name = sel[1].tag[len("loop-carried:"):] if sel[0] == "x" and isinstance(sel[1], Opq) and sel[1].tag.startswith("loop-carried:") else None
     if name is None:
@@ -1222,6 +1268,13 @@ def r2_imputer(ctx, repo):
                   "for some option values the documented rule name %r falls through the dispatch to the unknown-method error" % name, loc)
         for s, ret in rets:
             imputer_return(ctx, repo, it, c, name, ret, Z, loc)
+            if name in ("backfill", "bfill", "pad", "ffill", "nearest", "linear"):
+                # these rules cannot fill a leading and / or trailing gap: the documented clean-up must follow on every path
+                core = peel_edge(ret)
+                ctx.check(edge_filled_of(ret, core) if isinstance(core, CallV) and core is not ret else False, "R2", c + ":complete",
+                          "leading / trailing gaps the rule cannot reach are closed by a final forward and backward fill",
+                          "after %r no final forward + backward fill follows (%r): a series that starts or ends with missing values "
+                          "keeps them" % (name, ret), loc)
     # missing_values placeholder replacement
     it = mk_interp(repo, no_inline=NO_INLINE + ("_check_method",))
     sv = SelfV(cls)
@@ -1365,9 +1418,10 @@ def imputer_forecast(ctx, repo, it, c, name, ret, Z, loc):
     if fits:
         fb = bound(fits[-1], ["y", "X", "fh"])
         fitted = fb.get("y")
-    ctx.check(None if not fits else (edge_filled_of(fitted, Z) or fitted == Z), "R2", c + ":fit-data",
-              "the forecaster is fitted on the series itself (gaps bridged by ffill/backfill)",
-              "the forecaster is fitted on %r" % (fitted,), loc)
+    ctx.check(None if not fits else edge_filled_of(fitted, Z), "R2", c + ":fit-data",
+              "the forecaster is fitted on the series itself with its gaps bridged by ffill and backfill",
+              "the forecaster is fitted on %r, expected the input with its gaps closed by forward and backward fill (a forecaster "
+              "cannot be fitted on missing values)" % (fitted,), loc)
     ctx.check(core.recv == Z, "R2", c + ":filled-series",
               "the prediction fills the gaps of the input series",
               "fillna(value=<prediction>) is applied to %r, a copy whose gaps were already closed by ffill/backfill, so the "
@@ -1899,6 +1953,17 @@ def r3_method(ctx, repo, rel, cname, meth, args, min_loops, attrs=None, extra_no
         verdict = True
         if wrong:
             verdict = False if any(x[0] == "i" for x in wrong) else None
+        delivers = False
+        for _, ret_ in rets[:1]:
+            reach_ = walk_with_stores(ret_, events)
+            for e in events:
+                if l in e.loops and e.kind == "store" and any(x is e.base for x in reach_):
+                    delivers = True
+                if l in e.loops and e.kind == "append" and l not in e.base.created_loops and innermost_inst(e, cands) is None \
+                        and any(x is e.base for x in reach_):
+                    delivers = True
+        ctx.check(delivers, "R3", "%s:column-loop#%d:writes" % (base, cidx), "the result of every column is put into the returned frame",
+                  "the loop over the columns computes a result per column but never stores it in the returned frame / list", lloc)
         ctx.check(verdict, "R3", c, "every read of the input inside the column loop selects the loop's own column",
                   "inside the loop over the columns the input is read at column %r instead of the loop's own column: output "
                   "column d is not computed from input column d" % ((wrong or [None])[0],), lloc)
@@ -1911,8 +1976,51 @@ def r3_method(ctx, repo, rel, cname, meth, args, min_loops, attrs=None, extra_no
             outs_.append(e.base)
         if e.kind == "store" and isinstance(e.base, Buf) and e.base not in outs_:
             outs_.append(e.base)
+    col_accs = []
+    for l in loops.values():
+        by_pos = isinstance(l.it, Rng) and l.it == Rng(ZERO, Lin.sym("c(X)")) and l.var is not None
+        by_label = isinstance(l.it, Opq) and l.it.tag == "attr:columns" and l.it.args and isinstance(l.it.args[0], Src)
+        if by_pos or by_label:
+            for e in events:
+                if e.kind == "append" and l in e.loops and l not in e.base.created_loops and innermost_inst(e, cands) is None \
+                        and e.base not in col_accs:
+                    col_accs.append(e.base)
     for _, ret in rets[:1]:
-        for v in walk_with_stores(ret, events):
+        reach = walk_with_stores(ret, events)
+        for v in reach:
+            if isinstance(v, AccList) and v.func is fn and not v.appends and not v.other and not v.persist:
+                ctx.violation("R3", base + ":assembly", "a list that is returned as a column of per-instance results is never filled "
+                              "(no append reaches it)", loc)
+            if isinstance(v, CallV) and v.name == "pandas.concat" and v.args and any(v.args[0] is o for o in col_accs):
+                ax = v.arg(1, "axis", ZERO)
+                ok = ax == ONE or ax == K("columns")
+                ctx.check(ok if isinstance(ax, (Lin, K)) else None, "R3", base + ":column-assembly",
+                          "per-column results are put side by side (axis=1): one row per instance",
+                          "per-column results are concatenated along axis=%r: the output no longer has one row per instance" % (ax,), loc)
+        used = set()
+        for e in events:
+            if e.kind == "load" and isinstance(e.base, (AccList, Buf)):
+                used.add(id(e.base))
+            for l in e.loops:
+                for x in walk(l.it):
+                    if isinstance(x, (AccList, Buf)):
+                        used.add(id(x))
+            if e.kind in ("append", "store", "comp-elem") and e.value is not None:
+                for x in walk(e.value):
+                    if isinstance(x, (AccList, Buf)) and x is not e.base:
+                        used.add(id(x))
+        for cv in it.calls:
+            for a in list(cv.args) + list(cv.kwargs.values()) + [cv.recv]:
+                for x in walk(a) if a is not None else ():
+                    if isinstance(x, (AccList, Buf)):
+                        used.add(id(x))
+        for o in outs_:
+            if isinstance(o, AccList) and (o.persist or o.func is not fn):
+                continue
+            if not any(x is o for x in reach) and id(o) not in used:
+                ctx.violation("R3", base + ":assembly", "per-instance results are collected (%r) but neither returned nor used: the "
+                              "output does not contain them" % (o,), loc)
+        for v in reach:
             inner = reordered(v)
             if inner is not None and any(inner is o for o in outs_):
                 ctx.violation("R3", base + ":assembly", "the per-instance results are re-ordered (%r) before they are returned" % (v,), loc)
@@ -2038,6 +2146,14 @@ def row_layout(ctx, repo, cname, res):
                    "instead of (a0, b0), (a1, b1) -- identical only for univariate panels")
     ctx.check(verdict, "R3", c, "instance i is handed over as the transpose of X[i]: cell (i, c) is column c, time runs along the rows",
               why, loc, witness={"argument": repr(arg)})
+    if cname == "SeriesToPrimitivesRowTransformer":
+        bufs = []
+        for e in it.events:
+            if e.kind == "store" and isinstance(e.base, Buf) and innermost_inst(e, cands) is not None and e.base not in bufs:
+                bufs.append(e.base)
+        ctx.check(None if len(bufs) != 1 else bufs[0].shape == [n, cc], "R3", "%s.transform:output-shape" % cname,
+                  "the output has one row per instance and one value per column",
+                  "the output array has shape %r, expected (n_instances, n_columns)" % ([b.shape for b in bufs],), loc)
     if cname == "SeriesToSeriesRowTransformer":
         c2 = "%s.transform:result-layout" % cname
         outs = [e for e in it.events if e.kind in ("append", "comp-elem") and e.value is not None]
@@ -2195,6 +2311,6 @@ def run(ctx):
     r2_options(ctx, repo)
     r3_all(ctx, repo)
     r3_history(ctx, repo)
-    ctx.floor("R1", 80)
-    ctx.floor("R2", 128)
-    ctx.floor("R3", 81)
+    ctx.floor("R1", 89)
+    ctx.floor("R2", 134)
+    ctx.floor("R3", 86)
